@@ -1,11 +1,181 @@
 import TdVerif.Sexp
+import TdVerif.Model.C15Tensorclass
 
 namespace TdVerif.Drive
-open TdVerif Sexp
+open TdVerif Sexp TdVerif.C15 TdVerif.Gen.Tc
+
+namespace C15D
+
+/-- interned id of a method name; names the tables do not know get an id outside every table -/
+def idOf (s : String) : Nat := nameTable.idxOf s
+
+def ids? (l : List Sexp) : Option (List Nat) := (l.mapM asAtom?).map (·.map idOf)
+
+def bool? : Sexp → Option Bool
+  | .atom "true" => some true
+  | .atom "false" => some false
+  | _ => none
+
+def kindToSexp : Kind → Sexp
+  | .explicit impl => tagged "explicit" [.atom (if impl.all (fun c => c.isAlphanum || c == '_' || c == ':' || c == '.') && impl != "" then impl else "x")]
+  | .fromTD => .atom "fromTD"
+  | .wrap => .atom "wrap"
+  | .nowrap => .atom "nowrap"
+  | .copy => .atom "copy"
+  | .classmethod => .atom "classmethod"
+  | .user => .atom "user"
+  | .inherited => .atom "inherited"
+  | .fallback => .atom "fallback"
+  | .missing => .atom "missing"
+
+def errToSexp : Err → Sexp
+  | .key => .atom "key" | .value => .atom "value" | .attr => .atom "attr" | .lock => .atom "lock"
+  | .type => .atom "type" | .runtime => .atom "runtime" | .notImplemented => .atom "notimplemented"
+
+/-- tensordicts travel as `(td <tag> (key …))`; the model only needs the keys, the tag identifies the object -/
+structure TDd where
+  tag : String
+  keys : List String
+  deriving Inhabited
+
+def optV? : Sexp → Option (Option String)
+  | .atom "none" => some none
+  | .atom s => some (some s)
+  | _ => none
+
+def nt? (l : List Sexp) : Option (NT String) :=
+  l.mapM (fun e => match e with
+    | .list [.atom k, v] => (optV? v).map (fun v => (k, v))
+    | _ => none)
+
+def td? : Sexp → Option TDd
+  | .list [.atom "td", .atom tag, .list ks] => (ks.mapM asAtom?).map (fun ks => ⟨tag, ks⟩)
+  | _ => none
+
+def item? : Sexp → Option (Item TDd String)
+  | .atom "none" => some .none
+  | .atom "selftd" => some .selfTd
+  | .list [.atom "out", t] => (td? t).map (fun t => .td t true)
+  | .list [.atom "other", .atom x] => some (.other x)
+  | t@(.list (.atom "td" :: _)) => (td? t).map (fun t => .td t false)
+  | _ => none
+
+def res? : Sexp → Option (Res TDd String)
+  | .list (.atom "tuple" :: l) => (l.mapM item?).map .tuple
+  | s => (item? s).map .single
+
+def ntToSexp (nt : NT String) : Sexp :=
+  -- sorted by key: `_non_tensordict` placeholder order comes out of a python set
+  let sorted := nt.mergeSort (fun a b => a.1 ≤ b.1)
+  .list (sorted.map (fun kv => .list [.atom kv.1, match kv.2 with | none => .atom "none" | some v => .atom v]))
+
+def outItemToSexp : OutItem TDd String String → Sexp
+  | .none => .atom "none"
+  | .selfTc => .atom "self"
+  | .tc t => tagged "tc" [.atom t.cls, .atom t.td.tag, ntToSexp t.nt]
+  | .rawTd t => tagged "rawtd" [.atom t.tag]
+  | .rawSelfTd => .atom "rawselftd"
+  | .other x => tagged "other" [.atom x]
+
+def outToSexp : Except Err (Out TDd String String) → Sexp
+  | .error e => tagged "err" [errToSexp e]
+  | .ok (.single o) => tagged "ok" [outItemToSexp o]
+  | .ok (.tuple l) => tagged "ok" [tagged "tuple" (l.map outItemToSexp)]
+
+def entry? : Sexp → Option (Entry String String)
+  | .list [.atom "leaf", .atom t] => some (.leaf t)
+  | .list [.atom "nt", v] => (optV? v).map .ntData
+  | .list (.atom "stack" :: l) => (l.mapM optV?).map .ntStack
+  | _ => none
+
+def entries? (l : List Sexp) : Option (List (String × Entry String String)) :=
+  l.mapM (fun e => match e with
+    | .list [.atom k, v] => (entry? v).map (fun v => (k, v))
+    | _ => none)
+
+def optVToSexp : Option String → Sexp
+  | none => .atom "none"
+  | some v => .atom v
+
+def attrValToSexp : Except Err (AttrVal String String) → Sexp
+  | .error e => tagged "err" [errToSexp e]
+  | .ok (.tensor t) => tagged "tensor" [.atom t]
+  | .ok (.obj v) => tagged "obj" [optVToSexp v]
+  | .ok (.list l) => tagged "list" (l.map optVToSexp)
+
+def entryToSexp : Entry String String → Sexp
+  | .leaf t => tagged "leaf" [.atom t]
+  | .ntData v => tagged "nt" [optVToSexp v]
+  | .ntStack l => tagged "stack" (l.map optVToSexp)
+
+def tcToSexp (tc : TC (TDm String String) String) : Sexp :=
+  .list [tagged "td" ((tc.td.entries.mergeSort (fun a b => a.1 ≤ b.1)).map (fun kv => .list [.atom kv.1, entryToSexp kv.2])),
+         tagged "nt" [ntToSexp tc.nt]]
+
+def hint? : Sexp → Option Hint
+  | .atom "any" => some .any | .atom "accepted" => some .accepted
+  | .atom "collection" => some .collection | .atom "othertype" => some .otherType
+  | _ => none
+
+def valKind? : Sexp → Option ValKind
+  | .atom "tensor" => some .tensor | .atom "castable" => some .castable | .atom "none" => some .none
+  | .atom "dict" => some .dict | .atom "other" => some .other
+  | _ => none
+
+end C15D
+open C15D
 
 /-- line-protocol handler for C15: commands are named `c15.<something>` -/
 def handleC15 (cmd : String) (args : List Sexp) : Option Sexp :=
   match cmd, args with
+  | "c15.id", [.atom s] => some (if nameTable.contains s then ofNat (idOf s) else .atom "unknown")
+  | "c15.table_sizes", [] =>
+      some (.list [ofNat nameTable.length, ofNat methodFromTd.length, ofNat fallbackWrap.length, ofNat fallbackNowrap.length,
+                   ofNat fallbackForce.length, ofNat fallbackCopy.length, ofNat passThrough.length, ofNat installProgram.length,
+                   ofNat publicApi.length, ofNat operatorApi.length, ofNat handledFunctions.length])
+  -- (c15.dispatch_all (fields…) (own…) (inherited…) isNonTensor (names…)) → (kind…)
+  | "c15.dispatch_all", [.list fs, .list own, .list inh, nt, .list icm, .list names] => do
+      -- names outside the interned table get fresh ids (local to the request)
+      let all ← (fs ++ own ++ inh ++ icm ++ names).mapM asAtom?
+      let extra := (all.filter (fun s => !nameTable.contains s)).eraseDups
+      let idl (s : String) : Nat :=
+        let i := nameTable.idxOf s
+        if i < nameTable.length then i else nameTable.length + extra.idxOf s
+      let idsl (l : List Sexp) : Option (List Nat) := (l.mapM asAtom?).map (·.map idl)
+      let cfg : ClassCfg := ⟨← idsl fs, ← idsl own, ← idsl inh, ← bool? nt, ← idsl icm⟩
+      let ns ← names.mapM asAtom?
+      pure (.list (ns.map (fun n => .list [kindToSexp (dispatch cfg (idl n)), .atom (if servedAsProperty (idl n) then "prop" else "method")])))
+  | "c15.from_td", [.list fs, .list tdKeys, .list nt] => do
+      let fs ← fs.mapM asAtom?; let ks ← tdKeys.mapM asAtom?; let nt ← nt? nt
+      pure (match fromTensordict fs ks nt with
+        | .ok nt' => tagged "ok" [ntToSexp nt']
+        | .error e => tagged "err" [errToSexp e])
+  -- (c15.wrapcall nowrap cls (fields…) selftd (nt…) res)
+  | "c15.wrapcall", [nw, .atom cls, .list fs, selftd, .list nt, r] => do
+      let self : TC TDd String := ⟨cls, ← td? selftd, ← nt? nt⟩
+      pure (outToSexp (wrapCall (← fs.mapM asAtom?) TDd.keys (← bool? nw) self (← res? r)))
+  | "c15.fallback", [eu, cm, .atom cls, .list fs, selftd, .list nt, r] => do
+      let self : TC TDd String := ⟨cls, ← td? selftd, ← nt? nt⟩
+      pure (outToSexp (wrapMethodFallback (← fs.mapM asAtom?) TDd.keys (← bool? eu) (← bool? cm) self (← res? r)))
+  | "c15.torchfn", [.atom f, .atom cls, .list fs, selftd, .list nt, r] => do
+      let self : TC TDd String := ⟨cls, ← td? selftd, ← nt? nt⟩
+      pure (outToSexp (torchFunction (← fs.mapM asAtom?) TDd.keys (idOf f) self (← res? r)))
+  -- (c15.getfield (entries…) (nt…) item)
+  | "c15.getfield", [.list es, .list nt, .atom item] => do
+      let tc : TC (TDm String String) String := ⟨"C", ⟨← entries? es, false⟩, ← nt? nt⟩
+      pure (.list [attrValToSexp (getField tc item), attrValToSexp (tdGetItem (toTensordict tc) item)])
+  -- (c15.setfield (fields…) autocast nocast hint locked (entries…) (nt…) key kind castAcceptedOk)
+  | "c15.setfield", [.list fs, ac, nc, h, lk, .list es, .list nt, .atom key, k, cok, ook] => do
+      let tc : TC (TDm String String) String := ⟨"C", ⟨← entries? es, ← bool? lk⟩, ← nt? nt⟩
+      let a : SetArg String String := ⟨← valKind? k, "raw", "asTensor", if (← bool? cok) then some "castAccepted" else none, "fromDict", if (← bool? ook) then some "castOther" else none⟩
+      pure (match setField (← fs.mapM asAtom?) ⟨← bool? ac, ← bool? nc⟩ (← hint? h) tc key a with
+        | .error e => tagged "err" [errToSexp e]
+        | .ok tc' => tagged "ok" [tcToSexp tc', attrValToSexp (getField tc' key)])
+  | "c15.delfield", [lk, .list es, .list nt, .atom key] => do
+      let tc : TC (TDm String String) String := ⟨"C", ⟨← entries? es, ← bool? lk⟩, ← nt? nt⟩
+      pure (match delField tc key with
+        | .error e => tagged "err" [errToSexp e]
+        | .ok tc' => tagged "ok" [tcToSexp tc'])
   | _, _ => none
 
 end TdVerif.Drive
